@@ -89,6 +89,7 @@ pub fn run_with(sc: &Scenario, progs0: Progs, reduced: bool) -> String {
                 }
                 let s = sys.as_mut().unwrap();
                 let r = std::panic::catch_unwind(std::panic::AssertUnwindSafe(|| apply_op(s, &progs, op, &mut t)));
+                crate::script_proc::CALLS.with(|c| c.borrow_mut().clear());
                 match r {
                     Err(_) => {
                         writeln!(out, "PANIC").unwrap();
